@@ -167,3 +167,31 @@ Proof.
   - apply (sd_ok_reach _ Hr' (or_intror Q) _ _ Hi Es).
   - apply K6; [unfold cl_finished; rewrite Q; reflexivity|reflexivity].
 Qed.
+
+(* run() closes the listeners before it calls Shutdown: from then on the accept loop hands out nothing
+   (a closed listener stays closed), so under run()'s order not even the one late accept of
+   T11_late_accepts_closed_unserved happens *)
+Fixpoint accepts (ls : list label) : Z :=
+  match ls with [] => 0 | Acc _ :: r => 1 + accepts r | _ :: r => accepts r end.
+
+Lemma lopen_step g l g' : stepf g l = Some g' -> lopen g = false -> lopen g' = false /\ (forall i, l <> Acc i).
+Proof.
+  intros Hs Hl. destruct l; cbn [stepf label_conn] in Hs;
+    try (destruct (getc g i) as [c|] eqn:Hg; [|discriminate];
+         match type of Hs with
+         | option_map _ (hstep _ _ ?lab) = _ =>
+             destruct (hstep (closing g) c lab) as [c'|]; [|discriminate]; inv_some Hs; split; [exact Hl|discriminate]
+         end; fail).
+  all: try (break_match Hs; inv_some Hs; (split; [cbn; first [exact Hl|reflexivity]|intros; discriminate]); fail).
+  (* Acc *) rewrite Hl in Hs. cbn in Hs. break_match Hs.
+Qed.
+
+Theorem closed_listener_accepts_nothing ls : forall g g',
+  lopen g = false -> runf g ls = Some g' -> lopen g' = false /\ accepts ls = 0.
+Proof.
+  induction ls as [|l r IH]; intros g g' Hl H; cbn [runf] in H.
+  - inv_some H. split; [assumption|reflexivity].
+  - destruct (stepf g l) as [g1|] eqn:E; [|discriminate].
+    destruct (lopen_step _ _ _ E Hl) as [Hl1 Hn]. destruct (IH _ _ Hl1 H) as [A B].
+    split; [assumption|]. destruct l; cbn [accepts]; try assumption. exfalso. eapply Hn. reflexivity.
+Qed.
